@@ -407,8 +407,10 @@ def case_param(cfg):
             tables[k] = tab[:, None]
             user[k] = jnp.asarray(tab if spec.endswith("1") else tab[:, None])
     try:
-        g = DataGeneratorParameter(jax.random.PRNGKey(cfg["seed"]), n, b, param_ranges=ranges, method=cfg.get("method", "uniform"),
-                                   user_data=user)
+        # an empty part is passed as None (its documented default) in every other configuration
+        none_ok = bool(cfg["seed"] % 2)
+        g = DataGeneratorParameter(jax.random.PRNGKey(cfg["seed"]), n, b, param_ranges=(ranges or None) if none_ok else ranges,
+                                   method=cfg.get("method", "uniform"), user_data=(user or None) if none_ok else user)
     except Exception as ex:
         tr["exc"] = f"{type(ex).__name__}: {str(ex)[:120]}"
         return tr
